@@ -21,7 +21,7 @@ use uuid::Uuid;
 use crate::common::{fnv, Counters, RunOut, SimCtx, Violation};
 use crate::exec::guarded;
 use crate::scenario::{RunKind, Scenario, Tier};
-use crate::sio::{heap_mark, heap_peak_since, Gen, ReadCfg, SimBufRead, SimWrite, WriteCfg, WriteFault};
+use crate::sio::{heap_mark, heap_peak_since, Gen, ReadCfg, Section, SimBufRead, SimWrite, WriteCfg, WriteFault};
 use crate::tape::Tape;
 
 pub struct C09;
@@ -1461,6 +1461,39 @@ fn hostile_value(t: &mut Tape, expected_len: usize) -> String {
     }
 }
 
+/// Hostile text for the content of a `<publish>` element: Base 64 text with
+/// a multi-byte character (raw or as a character reference), stray padding or
+/// a character outside the alphabet at a chosen position of the
+/// white-space-stripped text - biased to the multiples of 1024 and 3/4 of
+/// them, where decoders refill their buffers - with or without interspersed
+/// white space.
+fn hostile_text(t: &mut Tape) -> String {
+    let wide = ["\u{e9}", "\u{20ac}", "\u{1F600}", "&#233;", "&#x20AC;", "&#128512;", "=", "-", "_", "\u{a0}", "&amp;"];
+    let at = if t.chance(1, 3) {
+        t.choose(3100) as usize
+    } else {
+        let base = *t.pick(&[768usize, 1024, 2048, 3072, 1365, 4096, 8192]);
+        (base + t.choose(9) as usize).saturating_sub(4)
+    };
+    let ws_every = *t.pick(&[0usize, 0, 1, 3, 64, 76, 1000]);
+    let mut out = String::with_capacity(at + 64);
+    let alphabet = b"QUJDREVGabcdwxyz0189+/";
+    for i in 0..at {
+        out.push(alphabet[i % alphabet.len()] as char);
+        if ws_every > 0 && i % ws_every == ws_every - 1 {
+            out.push(*t.pick(&[' ', '\n', '\t']));
+        }
+    }
+    out.push_str(*t.pick(&wide[..]));
+    for i in 0..t.choose(40) as usize {
+        out.push(alphabet[i % alphabet.len()] as char);
+    }
+    if t.chance(1, 2) {
+        out.push_str(*t.pick(&wide[..]));
+    }
+    out
+}
+
 impl C09 {
     /// Class G: a library-written document in which one attribute value was
     /// replaced by a hostile one (wrong length, out-of-range numbers, multi-byte
@@ -1510,6 +1543,66 @@ impl C09 {
             match res {
                 Ok(_) => counters.bump("probe_hostile_field_accepted"),
                 Err(_) => counters.bump("probe_hostile_field_rejected"),
+            }
+        }
+        // the same for the text of a <publish> element
+        let mut texts: Vec<(usize, usize)> = Vec::new();
+        let mut from = 0usize;
+        while let Some(p) = text[from..].windows(8).position(|w| w == b"<publish") {
+            let open = from + p;
+            let tag_end = match text[open..].iter().position(|b| *b == b'>') { Some(e) => open + e, None => break };
+            from = tag_end + 1;
+            if text[tag_end - 1] == b'/' {
+                continue;
+            }
+            if let Some(c) = text[from..].windows(10).position(|w| w == b"</publish>") {
+                texts.push((from, from + c));
+                from += c;
+            }
+            if texts.len() > 50 {
+                break;
+            }
+        }
+        if texts.is_empty() {
+            return Ok(());
+        }
+        for _ in 0..8 {
+            let (ts, te) = texts[ctx.choose(texts.len() as u64) as usize];
+            let (val, rcfg, streaming) = {
+                let mut t = ctx.tape.lock().unwrap();
+                (hostile_text(&mut t), gen_read_cfg(&mut t, true), t.chance(1, 2))
+            };
+            let mut damaged = text[..ts].to_vec();
+            damaged.extend_from_slice(val.as_bytes());
+            damaged.extend_from_slice(&text[te..]);
+            let damaged = Arc::new(damaged);
+            let mut r = reader(ctx, &damaged, rcfg);
+            ctx.ev(61, ts as u64, || format!("G: text of the <publish> element at byte {} replaced by {} bytes ending in {:?}", ts, val.len(), val.chars().rev().take(24).collect::<String>().chars().rev().collect::<String>()));
+            let res = guarded("parse-hostile-text", || {
+                Ok(if streaming {
+                    let mut rec = LazyRecorder { ctx: ctx.clone(), recs: Vec::new() };
+                    let mut full = Recorder { ctx: ctx.clone(), recs: Vec::new(), bulk: ctx.chance(1, 2) };
+                    let lazy = ctx.chance(1, 3);
+                    match doc {
+                        Doc::Snapshot(_) if lazy => ProcessSnapshot::process(&mut rec, &mut r).map(|_| ()).map_err(|e| e.to_string()),
+                        Doc::Snapshot(_) => ProcessSnapshot::process(&mut full, &mut r).map(|_| ()).map_err(|e| e.to_string()),
+                        Doc::Delta(_) if lazy => ProcessDelta::process(&mut rec, &mut r).map(|_| ()).map_err(|e| e.to_string()),
+                        Doc::Delta(_) => ProcessDelta::process(&mut full, &mut r).map(|_| ()).map_err(|e| e.to_string()),
+                        _ => doc.parse_same(&mut r).map(|_| ()),
+                    }
+                } else {
+                    doc.parse_same(&mut r).map(|_| ())
+                })
+            })?;
+            out.evaluations += 1;
+            out.sub_sigs.push(fnv(&damaged) ^ 0x61);
+            counters.bump("fault_hostile_object_text");
+            if r.over_consumed > 0 {
+                return Err(Violation::new("over-consume", "text", format!("the parser consumed {} bytes more than fill_buf had exposed", r.over_consumed)));
+            }
+            match res {
+                Ok(_) => counters.bump("probe_hostile_text_accepted"),
+                Err(_) => counters.bump("probe_hostile_text_rejected"),
             }
         }
         Ok(())
@@ -1793,6 +1886,135 @@ impl C09 {
 }
 
 impl C09 {
+    /// Two runs inside ONE element: a long but permitted run of white space
+    /// inside its start tag (between the name and the first attribute), the
+    /// tag then completes as written, and an endless run follows as the
+    /// element's content. The per-element limit covers both together, so the
+    /// bound is counted from the start of that element.
+    /// `which`: 0 = first `<publish`, 1 = first `<withdraw`, 2 = the
+    /// notification's `<snapshot` entry, 3 = its first `<delta` entry.
+    #[allow(clippy::too_many_arguments)]
+    fn two_stage_case(
+        &self,
+        ctx: &Arc<SimCtx>,
+        doc: &Doc,
+        bytes: &Arc<Vec<u8>>,
+        which: u64,
+        frac: (u64, u64),
+        kind: Hostile,
+        counters: &mut Counters,
+        out: &mut RunOut,
+    ) -> Result<bool, Violation> {
+        let text: &[u8] = bytes.as_ref();
+        let find = |needle: &[u8], from: usize| -> Option<usize> {
+            if from > text.len() { return None; }
+            text[from..].windows(needle.len()).position(|w| w == needle).map(|i| i + from)
+        };
+        let root_open = format!("<{}", doc.kind());
+        let located = (|| {
+            let root = find(root_open.as_bytes(), 0)?;
+            let root_tag_end = find(b">", root)?;
+            let name: &[u8] = match (doc, which) {
+                (Doc::Notification(_), 2) => b"<snapshot",
+                (Doc::Notification(_), 3) => b"<delta",
+                (Doc::Snapshot(_), 0) | (Doc::Delta(_), 0) => b"<publish",
+                (Doc::Delta(_), 1) => b"<withdraw",
+                _ => return None,
+            };
+            let e0 = find(name, root_tag_end + 1)?;
+            let name_end = e0 + name.len();
+            if !matches!(text.get(name_end), Some(b' ') | Some(b'\n') | Some(b'\t')) {
+                return None;
+            }
+            let tag_end = find(b">", name_end)?;
+            Some((e0, name_end, tag_end))
+        })();
+        let (e0, name_end, tag_end) = match located {
+            Some(x) => x,
+            None => return Ok(false),
+        };
+        let limit = match doc {
+            Doc::Notification(_) => MAX_HEADER_SIZE,
+            _ => MAX_FILE_SIZE,
+        };
+        let s1 = limit / frac.1 * frac.0;
+        // the rest of the start tag as written; an empty-element tag is opened up
+        let mut rest = text[name_end..tag_end].to_vec();
+        if rest.last() == Some(&b'/') {
+            rest.pop();
+        }
+        rest.push(b'>');
+        let (opener, unit) = hostile_bytes(kind);
+        rest.extend_from_slice(opener);
+        let rcfg = {
+            let mut t = ctx.tape.lock().unwrap();
+            let chunk_max = if limit == MAX_FILE_SIZE { *t.pick(&[65536usize, 8192, 1 << 20]) } else { *t.pick(&[65536usize, 64, 1000, 8192]) };
+            ReadCfg {
+                mode: if limit == MAX_FILE_SIZE { 0 } else { t.choose(3) as u8 },
+                chunk_max,
+                eintr: if t.chance(1, 4) { 50 } else { 0 },
+                fail_at: None,
+                bound: Some(e0 as u64 + limit + 2 * (chunk_max as u64).max(65536)),
+            }
+        };
+        let sections = vec![
+            Section::Bytes(Arc::new(text[..name_end].to_vec())),
+            Section::Repeat { unit: b" \n\t ".to_vec(), len: Some(s1) },
+            Section::Bytes(Arc::new(rest)),
+            Section::Repeat { unit: unit.to_vec(), len: None },
+        ];
+        let gen = Gen::Sections { sections, pos: 0, max: e0 as u64 + 3 * limit };
+        ctx.reset_polls();
+        let mut r = SimBufRead::new(ctx, gen, rcfg);
+        let streaming = !matches!(doc, Doc::Notification(_)) && ctx.chance(1, 2);
+        let res = guarded("parse-hostile", || {
+            Ok(if streaming {
+                let mut rec = Recorder { ctx: ctx.clone(), recs: Vec::new(), bulk: false };
+                match doc {
+                    Doc::Snapshot(_) => ProcessSnapshot::process(&mut rec, &mut r).map(|_| "processed".to_string()).map_err(|e| e.to_string()),
+                    _ => ProcessDelta::process(&mut rec, &mut r).map(|_| "processed".to_string()).map_err(|e| e.to_string()),
+                }
+            } else {
+                doc.parse_same(&mut r).map(|d| d.summary())
+            })
+        })?;
+        out.evaluations += 1;
+        out.sub_sigs.push(fnv(format!("2stage{}{}{:?}{:?}{}", doc.kind(), which, frac, kind, rcfg.chunk_max).as_bytes()) ^ e0 as u64);
+        counters.bump(if limit == MAX_FILE_SIZE { "fault_two_runs_in_one_element_100MB_limit" } else { "fault_two_runs_in_one_element_1MB_limit" });
+        counters.max_into("probe_max_pulled_beyond_element_start_two_runs", r.pulled.saturating_sub(e0 as u64));
+        ctx.ev(21, r.pulled, || {
+            format!(
+                "D2: {} element#{} at {}: {} bytes of white space in its start tag, then endless {:?} as content; limit={} chunk_max={} -> pulled {} bound {:?} result {:?}",
+                doc.kind(), which, e0, s1, kind, limit, rcfg.chunk_max, r.pulled, rcfg.bound,
+                res.as_ref().map_err(|e| e.chars().take(60).collect::<String>())
+            )
+        });
+        let key = format!("{}/two-runs-{}/{:?}", doc.kind(), which, kind);
+        if r.over_consumed > 0 {
+            return Err(Violation::new("over-consume", key, format!("the parser consumed {} bytes more than fill_buf had exposed (BufRead contract)", r.over_consumed)));
+        }
+        let breached = r.bound_breached.or(if r.pulled > rcfg.bound.unwrap() { Some(r.pulled) } else { None });
+        if let Some(p) = breached {
+            return Err(Violation::new(
+                "read-bound",
+                key,
+                format!(
+                    "a {} element starting at byte {} with {} bytes of white space in its start tag and endless {:?} as content: parser pulled {} bytes; bound is element start {} + limit {} + 2 x max(chunk {}, 64 KiB) = {}",
+                    doc.kind(), e0, s1, kind, p, e0, limit, rcfg.chunk_max, rcfg.bound.unwrap()
+                ),
+            ));
+        }
+        if res.is_ok() {
+            counters.bump("probe_hostile_stream_yielded_value");
+        }
+        if r.pulled >= e0 as u64 + s1 + 1000 {
+            counters.bump("probe_two_runs_second_run_reached");
+        }
+        Ok(true)
+    }
+}
+
+impl C09 {
     /// The limits approached from the valid side: (0) one object whose
     /// element stays just below the 100 MB per-element limit must round-trip;
     /// (1) one whose element exceeds it must be cut off within the bound; (2) a
@@ -1883,6 +2105,42 @@ impl C09 {
 impl C09 {
     fn run_inner(&self, kind: RunKind, tier: Tier, ctx: &Arc<SimCtx>, counters: &mut Counters, out: &mut RunOut) -> Result<(), Violation> {
         match kind {
+            RunKind::Sweep(i) if i >= 3 * 10 * 17 + 4 => {
+                // two runs in one element: element (4) x share of the limit used
+                // by the first run (2) x kind of the second run (6)
+                let j = i - (3 * 10 * 17 + 4);
+                let which = j % 4;
+                let frac = [(1u64, 4u64), (9, 10)][((j / 4) % 2) as usize];
+                let hk = [Hostile::Whitespace, Hostile::Base64Text, Hostile::Comment, Hostile::Cdata, Hostile::EntityRefs, Hostile::Nested][((j / 8) % 6) as usize];
+                let doc = {
+                    let mut t = ctx.tape.lock().unwrap();
+                    match which {
+                        2 | 3 => {
+                            let host = "rrdp.example.net";
+                            Doc::Notification(NotificationFile::new(
+                                gen_uuid(&mut t), 7,
+                                UriAndHash::new(gen_https(&mut t, host), gen_hash(&mut t)),
+                                vec![DeltaInfo::new(7, gen_https(&mut t, host), gen_hash(&mut t))],
+                            ))
+                        }
+                        0 if j % 16 < 8 => Doc::Snapshot(Snapshot::new(gen_uuid(&mut t), 7, vec![PublishElement::new(gen_rsync(&mut t), Bytes::from_static(b"hello world!!"))])),
+                        _ => Doc::Delta(Delta::new(
+                            gen_uuid(&mut t), 7,
+                            vec![
+                                DeltaElement::Publish(PublishElement::new(gen_rsync(&mut t), Bytes::from_static(b"hello"))),
+                                DeltaElement::Withdraw(WithdrawElement::new(gen_rsync(&mut t), gen_hash(&mut t))),
+                            ],
+                        )),
+                    }
+                };
+                let mut w = SimWrite::new(ctx, WriteCfg { short_writes: false, eintr: 0, fault: WriteFault::None, fault_kind: std::io::ErrorKind::Other });
+                doc.write(&mut w).map_err(|e| Violation::new("write-failed", doc.kind(), e.to_string()))?;
+                let bytes = Arc::new(w.accepted);
+                if self.two_stage_case(ctx, &doc, &bytes, which, frac, hk, counters, out)? {
+                    out.nontrivial = true;
+                }
+                Ok(())
+            }
             RunKind::Sweep(i) if i >= 3 * 10 * 17 => {
                 out.nontrivial = true;
                 self.large_valid_case(ctx, i - 3 * 10 * 17, counters, out)
@@ -1991,7 +2249,17 @@ impl C09 {
                         let kinds = kinds_for(pos);
                         let hk = kinds[ctx.choose(kinds.len() as u64) as usize];
                         let heavy = !matches!(doc, Doc::Notification(_)) && !matches!(pos, Pos::Prolog | Pos::RootAttrs);
-                        if !heavy || ctx.chance(1, if tier == Tier::Thorough { 12 } else { 40 }) {
+                        if ctx.chance(1, 4) {
+                            // two runs within one element of this document
+                            let which = ctx.choose(4);
+                            let frac = [(1u64, 4u64), (1, 2), (9, 10)][ctx.choose(3) as usize];
+                            let k2 = [Hostile::Whitespace, Hostile::Base64Text, Hostile::Comment, Hostile::ManyComments, Hostile::Cdata, Hostile::EntityRefs, Hostile::Nested, Hostile::Text];
+                            let hk2 = k2[ctx.choose(k2.len() as u64) as usize];
+                            let heavy2 = !matches!(doc, Doc::Notification(_));
+                            if !heavy2 || ctx.chance(1, if tier == Tier::Thorough { 12 } else { 40 }) {
+                                self.two_stage_case(ctx, &doc, &bytes, which, frac, hk2, counters, out)?;
+                            }
+                        } else if !heavy || ctx.chance(1, if tier == Tier::Thorough { 12 } else { 40 }) {
                             self.hostile_case(ctx, &doc, &bytes, pos, hk, counters, out)?;
                         }
                     }
@@ -2008,7 +2276,7 @@ impl Scenario for C09 {
     fn level(&self) -> &'static str { "exploration" }
 
     fn sweep_len(&self, _tier: Tier) -> u64 {
-        3 * 10 * 17 + 4
+        3 * 10 * 17 + 4 + 4 * 2 * 6
     }
 
     fn random_runs(&self, tier: Tier) -> u64 {
